@@ -9,7 +9,7 @@ HARNESS = 'c18'
 COQ_IMPORTS = ('From Coq Require Import QArith Uint63.\n'
                'From VRP Require Import Base.Tac Model.SlotQ Model.SlotF Model.Reward Model.Termination.\nOpen Scope Z_scope.')
 MODEL_TARGETS = ['theories/Model/SlotQ.vo', 'theories/Model/SlotF.vo', 'theories/Model/Reward.vo', 'theories/Model/Termination.vo']
-SIZES = {'quick': 1400, 'thorough': 12000, 'search': 6000}
+SIZES = {'quick': 2200, 'thorough': 15000, 'search': 6000}
 RULE = ('cases: (slot) reward histories fed to the real SlotMachine with a recording sampler - exact dyadic histories '
         '(compared as rationals with the Q model and bit for bit with the primitive-float twin) and general float histories '
         '(0, denormals, 1e-300..1e9, repeats, alternating extremes, length <= 2000; twin bit for bit + invariant oracle at every '
@@ -306,7 +306,9 @@ def gen_minvar(rng, tier):
     sample = rng.choice([1, 2, 2, 3, 4, 4, 5, 6, 8])
     nobj = rng.choice([1, 1, 2, 3])
     is_global = rng.chance(2, 3)
-    mode = rng.below(6)
+    mode = rng.choice([0, 0, 0, 1, 2, 3, 4, 5])
+    if mode == 0 and rng.chance(3, 4):
+        sample = rng.choice([2, 2, 4, 6, 8])      # even window of m-d, m+d: variance d^2, cv = d/m exactly
     steps = []
     start = 0 if rng.chance(5, 6) else rng.range(1, 3 * sample)
     n = rng.range(sample, sample * 3 + 2)
@@ -316,7 +318,7 @@ def gen_minvar(rng, tier):
         g = start + i
         if mode == 0:
             # alternate m-d, m+d: var = d^2 (even window), cv = d/m
-            d = [b * thr * rng.choice([1, 1, 1, 2, Fr(1, 2)]) for b in base]
+            d = [b * thr * rng.choice([1, 1, 1, 1, 1, 2, Fr(1, 2)]) for b in base]
             fit = [b + (dd if g % 2 == 0 else -dd) for b, dd in zip(base, d)]
         elif mode == 1:
             fit = [b + Fr(rng.range(-8, 8), 2 ** rng.range(0, 6)) for b in base]
@@ -332,7 +334,7 @@ def gen_minvar(rng, tier):
             g += rng.range(1, 3)
             start += 1
         steps.append({'gen': g, 'phase': rng.choice([0, 1, 2, 2]), 'fit': None if rng.chance(1, 15) else sb(bits(float(x)) for x in fit)})
-    if mode == 0 and rng.chance(1, 2):
+    if mode == 0 and rng.chance(2, 5):
         thr = thr + rng.choice([-1, 1]) * Fr(1, 2 ** 40)
     if rng.chance(1, 20):
         thr = -thr
@@ -667,7 +669,10 @@ def reward_violations(c, impl):
             v.append({'class': 'selection-missing', 'what': '%d samples for %d steps' % (len(impl['search']), len(c['steps']))})
     if not nonfinite_seen:
         total = 0
+        last = len(c['steps']) - 1
         for p in impl['params']:
+            if p['generation'] != last:
+                continue
             if p['name'] not in names:
                 v.append({'class': 'unconfigured-operator', 'what': 'params of %r' % p['name']})
             if not all(finite(p[x]) for x in ('alpha', 'beta', 'mu', 'v')):
@@ -677,7 +682,7 @@ def reward_violations(c, impl):
             if not (a > 0 and b > 0 and var >= 0):
                 v.append({'class': 'slot-state-invalid', 'what': 'DynamicSelective slot %s/%s alpha=%r beta=%r v=%r' % (p['state'], p['name'], a, b, var)})
             total += p['n']
-        if impl['params'] and impl['panic_at'] is None and total != len(c['steps']):
+        if c['steps'][-1].get('many') and impl['panic_at'] is None and total != len(c['steps']):
             v.append({'class': 'slot-count', 'what': 'sum of n over slots %d, steps %d' % (total, len(c['steps']))})
     return v
 
